@@ -434,3 +434,131 @@ RULES = [
     ("C09.R4", "reset systems run on the right status edges and before the next receive", r4_scheduling, 8, ["default", "all-features"]),
 ]
 THOROUGH_CONFIGS = ["default", "all-features", "server-only", "client-only"]
+
+
+# --------------------------------------------------------------------------- R1c: reuse pools never carry data
+def _pool_id(F, body, op):
+    from flow import resolve_through_closure
+    tr = tracer(body)
+    origins = tr.operand(op)
+    if body.kind == "Closure":
+        origins = {o for (_, o) in resolve_through_closure(F, body, origins)}
+        # origins now refer to the parent; local types of params must be looked up there
+    ids = set()
+    for o in origins:
+        flds = [e for e in o.path if e[0] == "f" and e[3] and e[3] in F.adts]
+        if flds:
+            ids.add((flds[-1][3], flds[-1][2]))
+        elif o.kind == "param" and body.kind != "Closure":
+            ty = body.locals[o.data]["ty"].replace("&mut ", "").replace("&", "").strip()
+            base = ty.split("<")[0]
+            if base in F.adts:
+                ids.add((base, "*"))
+    return ids
+
+
+def _same_value(body, a, b):
+    tr = tracer(body)
+    oa, ob = tr.operand(a), tr.operand(b)
+    return bool(oa) and oa == ob
+
+
+def find_pools(F):
+    pools = {}
+    for body in F.real_fns():
+        if "::tests::" in body.path or body.crate != "bevy_replicon":
+            continue
+        tr = tracer(body)
+        for bb, t in body.calls():
+            if callee_decl(t).endswith("Option::<T>::unwrap_or_default"):
+                for o in tr.operand(t["args"][0]):
+                    if o.kind == "call" and callee_decl(body.blocks[o.data].term).endswith("Vec::<T, A>::pop"):
+                        for pid in _pool_id(F, body, body.blocks[o.data].term["args"][0]):
+                            pools.setdefault(pid, {"pops": [], "pushes": []})["pops"].append((body, o.data, bb))
+    for body in F.real_fns():
+        if "::tests::" in body.path or body.crate != "bevy_replicon":
+            continue
+        for bb, t in body.calls():
+            d = callee_decl(t)
+            m = d.rsplit("::", 1)[-1]
+            if (m == "push" and "Vec" in d) or (m == "extend" and d.endswith("Extend::extend")):
+                for pid in _pool_id(F, body, t["args"][0]):
+                    if pid in pools:
+                        pools[pid]["pushes"].append((body, bb, m, t["args"][1]))
+    return pools
+
+
+def _pop_clears(F, body, pop_bb, unwrap_bb):
+    """The value taken from the pool is cleared before any use."""
+    tr = tracer(body)
+    for bb, t in body.calls():
+        m = callee_decl(t).rsplit("::", 1)[-1]
+        if m == "clear" and t["args"]:
+            o = tr.operand(t["args"][0])
+            if o and all(x.kind == "call" and x.data == unwrap_bb for x in o) and body.dominates(unwrap_bb, bb) and body.postdominates(bb, unwrap_bb):
+                return True
+    return False
+
+
+def _closure_returns_cleared(F, cb):
+    """closure returns a collection on which it called clear()/drain(..) first."""
+    tr = tracer(cb)
+    ret = tr.local(0)
+    if not ret:
+        return False
+    for bb, t in cb.calls():
+        m = callee_decl(t).rsplit("::", 1)[-1]
+        if m in ("clear", "drain") and t["args"]:
+            if tr.operand(t["args"][0]) == ret:
+                return True
+    return False
+
+
+def r1c_pool_hygiene(ctx):
+    F = ctx.F
+    pools = find_pools(F)
+    if len(pools) < 5:
+        ctx.bad("pools", "", "only %d reuse pools found" % len(pools), kind="anchor-missing")
+    for pid, info in sorted(pools.items()):
+        name = "%s.%s" % (short(pid[0]), pid[1])
+        all_pops_clear = all(_pop_clears(F, b, pb, ub) for (b, pb, ub) in info["pops"])
+        if all_pops_clear:
+            ctx.ok("%s/cleared-when-taken" % name, site_of(info["pops"][0][0], info["pops"][0][1]), "every value taken from the pool is cleared before use (%d pop site(s))" % len(info["pops"]))
+            continue
+        for (body, bb, m, val) in info["pushes"]:
+            tr = tracer(body)
+            ok = None
+            vo = tr.operand(val)
+            # (a) cleared / drained before being returned to the pool
+            for b2, t2 in body.calls():
+                m2 = callee_decl(t2).rsplit("::", 1)[-1]
+                if m2 in ("clear", "drain") and t2["args"] and tr.operand(t2["args"][0]) == vo and body.dominates(b2, bb):
+                    ok = "cleared before being pooled"
+            # (a') produced by a closure that clears what it returns
+            if ok is None:
+                cls = []
+                for (k, d) in dep_closure(body, val):
+                    if k == "stmt":
+                        rv = body.blocks[d[0]].stmts[d[1]]["rvalue"]
+                        if rv["rv"] == "agg" and rv["kind"] == "closure" and F.fns.get(rv["closure"]):
+                            cls.append(F.fns[rv["closure"]])
+                if cls and all(_closure_returns_cleared(F, c) for c in cls):
+                    ok = "mapped through a closure that clears each value"
+            # (b) only pooled when empty
+            if ok is None:
+                for (sbb, c, o) in required_outcomes(F, body, bb):
+                    if c["kind"] == "boolcall" and c["name"].endswith("::is_empty") and o == {True} and tr.operand(c["args"][0]) == vo:
+                        ok = "pooled only when empty"
+            # (d) drained through the pool slot right after
+            if ok is None:
+                for b2, t2 in body.calls():
+                    if callee_decl(t2).rsplit("::", 1)[-1] == "drain" and body.dominates(bb, b2) and body.postdominates(b2, bb):
+                        for (k, d) in dep_closure(body, t2["args"][0]):
+                            if k == "call" and callee_decl(body.blocks[d].term).endswith("::last_mut") and _pool_id(F, body, body.blocks[d].term["args"][0]) & {pid}:
+                                ok = "drained through the pool slot"
+            ctx.check(ok is not None, "%s/%s@%s" % (name, short(body.path), m), site_of(body, bb),
+                      "a collection is returned to the reuse pool `%s` without being emptied and the pool's users do not clear what they take: "
+                      "its old contents resurface in the next value built from the pool (after a reset: data of the previous session)" % name, ok)
+
+
+RULES.insert(2, ("C09.R1c", "reuse pools never carry data: pooled collections are emptied when returned or when taken", r1c_pool_hygiene, 5, None))
